@@ -70,3 +70,15 @@ Print Assumptions C02_bshape_refl.
 Theorem C02_bshape_scalar s : bshape s [::] = Some s.
 Proof. exact: bshape_scalar. Qed.
 Print Assumptions C02_bshape_scalar.
+
+(* ---- the executable carrier for COMPLEX coefficients: the Gaussian rationals Q(i) form a field of characteristic 0 in which i^2 = -1
+   and into which the rationals embed; every theorem above, being stated for an arbitrary field, applies to it, and the correspondence
+   check evaluates the very same model terms over it for the cases with complex operands. *)
+From Coq Require Import QArith Qcanon.
+From AlgoV Require Import QcField QciField.
+Local Close Scope Q_scope. Local Close Scope Qc_scope. Local Open Scope ring_scope.
+Theorem C02_Qci_carrier :
+  [/\ (MkQci 0 1 * MkQci 0 1 = -1 :> Qci_fieldType), [char Qci_fieldType]%R =i pred0, rmorphism (qci_of : Qc_fieldType -> Qci_fieldType)
+    & forall x y : Qci_fieldType, x * y = qci_mul x y /\ x + y = qci_add x y /\ x^-1 = qci_inv x].
+Proof. split; [exact: qci_i2 | exact: qci_char0 | exact: qci_of_is_rmorphism | by move=> x y; rewrite qci_mulE qci_addE qci_invE]. Qed.
+Print Assumptions C02_Qci_carrier.
